@@ -14,8 +14,8 @@ Normal(c) == [k |-> "Normal", code |-> c, max |-> Zero]
 Fetch(m) == [k |-> "Fetch", code |-> 0, max |-> m]
 Drop == [k |-> "Drop", code |-> 0, max |-> Zero]
 Panic == [k |-> "Panic", code |-> 0, max |-> Zero]
-Answers1 == {Normal(200), Normal(404), Normal(500), Fetch(D(0)), Fetch(D(2)), Fetch(D(3)), Fetch(U64Max), Drop, Panic}
-Answers2 == {Normal(200), Normal(500), Fetch(D(3)), Drop, Panic}
+Answers1 == {Normal(200), Normal(103), Normal(404), Normal(500), Fetch(D(0)), Fetch(D(2)), Fetch(D(3)), Fetch(U64Max), Drop, Panic}
+Answers2 == {Normal(200), Normal(103), Normal(500), Fetch(D(3)), Drop, Panic}
 Faults == {<<FALSE, FALSE, FALSE>>, <<TRUE, FALSE, FALSE>>, <<FALSE, TRUE, FALSE>>, <<FALSE, FALSE, TRUE>>}
 R(kind, L, sent, full, expect, a1, a2, f) ==
   [kind |-> kind, L |-> L, sent |-> sent, digest |-> IF sent = Zero THEN 0 ELSE 7, full |-> full, expect |-> expect,
